@@ -4,6 +4,7 @@ import javagen as J
 import C01
 
 ID = "C11"
+HARNESS_ENV = {"COCA_BIN": __import__("os").path.join(vlib.ROOT, "harness", "bin", "coca")}
 MODEL_ENTRY = "C11.model"
 SPEC_ENTRY = "C11.spec"
 HARNESS_OP = "java.tbs"
@@ -14,7 +15,8 @@ RULE = ("trees of conventional test classes (*Test.java, *Tests.java, anything u
         "calls, one assertion name called 3-7 times, helper calls with / without assertions inside, creations, no call, "
         "exactly one call) in random order, @Test / @Ignore alone or together in either order, helper and plain methods; "
         "flat and Maven layouts; non-trivial = at least one expected finding; distinct = distinct input"
-        '; a default-package test class walked after the packaged ones in a quarter of the trees')
+        '; a default-package test class walked after the packaged ones in a quarter of the trees'
+        '; every other tree is observed through `coca tbs -p DIR` (coca_reporter/tbs.json)')
 TRUSTED_BASE = C01.TRUSTED_BASE
 ASSUMPTIONS = ["a method-level finding is identified by the line of the method's NAME (the statement does not fix it; the full pass records that line since 00fa4f2)", "helpers contain only assertion or plain calls; an assertion is a call whose lower-cased name starts with one of "
                "assert/should/check/maynotbe/is/spec/verify (the documented list)"]
